@@ -38,7 +38,7 @@ class Harness:
                  flags=(), backend='sat', timeout=300, inputs=(), bounded=None,
                  expect_loop_obligations=0, defines=(), entry='harness', note='',
                  stubs=(), assumptions=(), replay=None, nondet_static=False, group=None,
-                 object_bits=None, no_canary=False, plain=False):
+                 object_bits=None, no_canary=False, plain=False, ignore=(), gen_bodies=None):
         self.name = name
         self.prop = prop
         self.parts = parts          # list of str | extract.Fn
@@ -60,6 +60,8 @@ class Harness:
         self.group = group
         self.object_bits = object_bits
         self.no_canary = no_canary
+        self.ignore = list(ignore)    # regexes on obligation descriptions that are not obligations of this property
+        self.gen_bodies = gen_bodies  # regex: body-less functions get a havocking body (goto-instrument --generate-function-body)
         self.plain = plain      # no DFCC instrumentation: assertions over the real bodies, loops fully unwound
         self.result = None
 
@@ -91,7 +93,7 @@ def generate(h, outdir):
     chunks = ['/* generated on every run by /verif/vp from %s; do not edit */\n' % extract.REPO,
               '#include "mp_shim.h"\n']
     for p in h.parts:
-        if isinstance(p, (extract.Fn, extract.Braced)):
+        if isinstance(p, (extract.Fn, extract.Braced)) or (hasattr(p, 'render') and hasattr(p, 'info')):
             chunks.append(p.render())
             infos.append(p.info)
         elif isinstance(p, tuple) and p[0] == 'enum':
@@ -162,7 +164,10 @@ def run_harness(h, outdir, tier):
         gi += ['--replace-call-with-contract', r]
     if h.loop_contracts:
         gi += ['--apply-loop-contracts']
-    if h.plain:
+    if h.plain and h.gen_bodies:
+        gi = ['goto-instrument', '--generate-function-body', h.gen_bodies, '--generate-function-body-options',
+              'havoc,params:.*', gb1, gb2]
+    elif h.plain:
         gi = ['cp', gb1, gb2]
     else:
         gi += [gb1, gb2]
@@ -223,6 +228,8 @@ def run_harness(h, outdir, tier):
         if m:
             name, lno, desc, st = m.group(1), m.group(2) or '', m.group(3), m.group(4)
             kind, counted = classify(name, desc)
+            if counted and any(re.search(rx, desc) for rx in h.ignore):
+                kind, counted = 'ignored', False
             ob = {'name': name, 'description': desc, 'status': st, 'kind': kind, 'counted': counted,
                   'file': cur_file, 'line': lno, 'function': cur_fn}
             if '.loop_invariant_step' in name:
